@@ -50,6 +50,46 @@ def header_kind(name, shell_hh):
     return 'Dzn_' + name.split('Dzn_')[-1]
 
 
+def file_name_space():
+    """Names of the Dezyne source file: every stem of length 1..2 over {d, z, n, a, _, D} (the letters of the
+    extension among them), every letter and digit as the last character of a longer stem, stems containing dots,
+    x directory forms x extensions."""
+    stems = [''.join(t) for n in (1, 2) for t in itertools.product('dznaD_', repeat=n)]
+    stems += ['Mo' + c for c in 'abcdefghijklmnopqrstuvwxyzABCDNZ0189_'] + ['My.Model', 'a.b.c', 'Garden', 'Buzz', 'json', 'dzn']
+    for stem in stems:
+        for folder in ('', 'some/dir/', './', '../x.y/', '/abs/d.dzn/'):
+            for ext in ('.dzn', '.json'):
+                yield stem, folder + stem + ext
+
+
+def file_name_task(case):
+    """Text-level: for every file name the shell includes <stem>.hh (the header the Dezyne code generator writes for
+    that source file) and the shell files are named <stem><suffix>."""
+    bad = []
+    n = 0
+    for stem, fname in file_name_space():
+        model = dict(case['model'])
+        model['file'] = fname
+        n += 1
+        try:
+            files = B.build(model, case['cfg'])
+        except Exception as exc:  # pylint: disable=broad-except
+            bad.append((fname, f'build fails: {exc!r}'))
+            continue
+        names = [f[0] for f in files]
+        suffix = case['cfg'].get('suffix', 'Shell')
+        if names[:2] != [stem + suffix + '.hh', stem + suffix + '.cc']:
+            bad.append((fname, f'shell files named {names[:2]}'))
+        allowed = set(names) | {stem + '.hh'}
+        for name, text, _h in files:
+            for inc in re.findall(r'^\s*#\s*include\s+"([^"]+)"', text, re.M):
+                if inc not in allowed:
+                    bad.append((fname, f'{name} includes "{inc}"'))
+        if f'#include "{stem}.hh"' not in files[0][1]:
+            bad.append((fname, f'{names[0]} does not include the model header "{stem}.hh"'))
+    return {'kind': 'file-names', 'point': case['id'], 'bad': bad, 'count': n}
+
+
 def tu_text(includes):
     return ''.join(f'#include "{h}"\n' for h in includes) + 'int main() { return 0; }\n'
 
@@ -107,6 +147,8 @@ def plan(case, thorough, full_graph):
             if inc not in allowed:
                 bad.append((name, inc))
     tasks.append({'kind': 'includes-closed', 'point': pid, 'bad': bad})
+    if pid in ('base', 'mc=p0:0'):
+        tasks.append(file_name_task(case))
 
     def syntax(kind, includes, compiler=None):
         tasks.append({'kind': kind, 'point': pid, 'includes': includes, 'src': src, 'compiler': compiler,
@@ -162,6 +204,16 @@ def run_task(task):
         part.outcome('includes-closed')
         for name, inc in task['bad']:
             part.violation(f'quoted-include-not-in-file-set:{inc}', f'point {task["point"]}: {name} includes "{inc}"', rcase)
+        return part
+    if kind == 'file-names':
+        part.outcome('file-names')
+        part.evaluations += task['count'] - 1
+        part.states += task['count'] - 1
+        part.transitions += task['count'] - 1
+        part.nontrivial += task['count']
+        for fname, what in task['bad'][:20]:
+            part.violation(f'file-name:{what.split(" ")[0]}:{fname.rsplit("/", 1)[-1][-5:]}',
+                           f'point {task["point"]}, source file {fname!r}: {what}', rcase)
         return part
     if kind == 'same-name-different-content':
         part.violation(f'support-file-name-collision:{task["file"]}',
